@@ -581,9 +581,10 @@ def m_pack(ex, args, kw, st, fr, node):
     fmt = args[0]
     if type(fmt).__name__ == 'VStrRep':
         return _pack_rep(ex, fmt, args[1:], st, node)
-    if not isinstance(fmt, VStr) or not fmt.s.startswith('>'):
+    if not isinstance(fmt, VStr) or not (fmt.s.startswith('>') or fmt.s.startswith('<')):
         raise Unsupported('struct.pack format')
-    sizes = {'B': 1, 'H': 2, 'I': 4, 'Q': 8}
+    little = fmt.s.startswith('<')
+    sizes = {'B': 1, 'H': 2, 'I': 4, 'L': 4, 'Q': 8}       # standard sizes (explicit byte order prefix)
     vals = [ex._as_int(a) for a in args[1:]]
     codes = list(fmt.s[1:])
     if len(codes) != len(vals) or any(c not in sizes for c in codes):
@@ -597,7 +598,10 @@ def m_pack(ex, args, kw, st, fr, node):
         bs = []
         for c, v in zip(codes, vals):
             n = sizes[c]
-            bs += [VInt((v.t / (1 << (8 * (n - 1 - i)))) % 256) for i in range(n)]
+            one = [VInt((v.t / (1 << (8 * (n - 1 - i)))) % 256) for i in range(n)]
+            if little:
+                one.reverse()
+            bs += one
         res += _out(ok, seq_from_items(bs, 'byte', 'bytes'))
     return res
 
